@@ -143,14 +143,19 @@ def sum8(data):
 
 
 def sum16(data):
-    if len(data) & 1:
-        data = data + b"\0"
-    s = 0
-    for i in range(0, len(data), 2):
-        s += (data[i] << 8) | data[i + 1]
+    """RFC 1071: big-endian 16-bit words, an odd trailing byte is padded with zero on the right; the words are
+    added in an unbounded integer and the carries folded back at the end (slices keep multi-MiB inputs fast)."""
+    s = (sum(data[0::2]) << 8) + sum(data[1::2])
     while s >> 16:
         s = (s & 0xFFFF) + (s >> 16)
     return (~s) & 0xFFFF
+
+
+def pattern(n, block):
+    """the large-input description shared with the harness: `block` repeated and cut to n bytes"""
+    if n == 0 or not block:
+        return b""
+    return (block * (n // len(block) + 1))[:n]
 
 
 # ---------------------------------------------------------------- scalable integer (from the header's table)
@@ -279,6 +284,10 @@ def handle(op, a):
         return str(sum16(unhex(a[0])))
     if op == "md5":
         return hashlib.md5(unhex(a[0])).hexdigest()
+    if op == "big":       # n block crc16seed crc32seed -> crc16 crc32 sum8 sum16 md5 of pattern(n, block)
+        d = pattern(int(a[0]), unhex(a[1]))
+        return "%d %d %d %d %s" % (binascii.crc_hqx(d, int(a[2])), zlib.crc32(d, int(a[3]) ^ 0xFFFFFFFF) & 0xFFFFFFFF,
+                                   sum8(d), sum16(d), hashlib.md5(d).hexdigest())
     if op == "md5pat":    # message = bytes((i*mul+add)&255 for i in range(n))
         n, mul, add = int(a[0]), int(a[1]), int(a[2])
         return hashlib.md5(bytes((i * mul + add) & 255 for i in range(n))).hexdigest()
@@ -318,6 +327,9 @@ def selfcheck():
     assert binascii.crc_hqx(b"123456789", 0xFFFF) == 0x29B1                                # CRC-16/CCITT-FALSE check
     assert zlib.crc32(b"123456789") == 0xCBF43926                                          # CRC-32/ISO-HDLC check
     assert sum16(bytes.fromhex("0001f203f4f5f6f7")) == 0x220D                              # RFC 1071 section 3 example
+    assert sum16(b"\x12") == (~0x1200) & 0xFFFF and sum16(b"") == 0xFFFF and sum16(b"\xff" * 131075) == 0x00FF
+    assert sum16(b"\xff" * 131076) == 0 and sum8(b"\xff" * 70000) == 0                       # all-ones sums stay all-ones
+    assert pattern(7, b"abc") == b"abcabca" and pattern(0, b"x") == b""
     assert sint_encode(0) == b"\x00" and sint_encode(127) == b"\x7f"
     assert sint_encode(128) == b"\x80\x00" and sint_encode(16511) == b"\xff\x7f"           # header table rows
     assert sint_encode(16512) == b"\x80\x80\x00" and sint_encode(2113663) == b"\xff\xff\x7f"
